@@ -73,6 +73,7 @@ def contract_for_property(c, pid):
 
 
 _JOBS = {}
+_SCALE = {}  # job -> factor on the solver budget (second attempt of a function whose first attempt left an obligation undecided)
 _REGISTRY = {}  # qualname -> contract, for modular calls (callers see the contracts of callees marked `modular`)
 
 
@@ -84,7 +85,7 @@ def worker(job):
     try:
         from pyvc import verify, replay, core, source
 
-        rep = verify.verify_function(qualname, c, schema, timeout_ms=TIERS[tier]["timeout_ms"], only=only, contracts=_REGISTRY)
+        rep = verify.verify_function(qualname, c, schema, timeout_ms=TIERS[tier]["timeout_ms"] * _SCALE.get(job, 1), only=only, contracts=_REGISTRY)
         out["paths"] = rep.paths
         out["src_hash"] = rep.src_hash
         out["unsupported"] = rep.unsupported
@@ -298,6 +299,20 @@ def main(argv=None):
             _JOBS[j[0]] = j
         with ctx.Pool(min(args.jobs, max(1, len(jobs)))) as pool:
             results = pool.map(worker, [j[0] for j in jobs], chunksize=1)
+        # solver budgets are wall-clock: on a loaded machine an obligation can come back `unknown` that is discharged in a fraction of the budget
+        # otherwise.  A function with an undecided obligation gets ONE more attempt with four times the budget and at most four functions at a time;
+        # the second result replaces the first only if it leaves fewer obligations undecided.  (A refuted obligation is never retried.)
+        again = [i for i, r in enumerate(results) if r["error"] is None and any(o["status"] == "unknown" and o["kind"] != "cover" for o in r["obligations"])]
+        if again:
+            for i in again:
+                _SCALE[jobs[i][0]] = 4
+            with ctx.Pool(min(4, len(again))) as pool:
+                second = pool.map(worker, [jobs[i][0] for i in again], chunksize=1)
+            n_unknown = lambda r: sum(1 for o in r["obligations"] if o["status"] == "unknown" and o["kind"] != "cover")
+            for i, r2 in zip(again, second):
+                if r2["error"] is None and n_unknown(r2) < n_unknown(results[i]):
+                    r2["assumptions"] = sorted(set(r2["assumptions"]) | {"second attempt with four times the solver budget (first attempt left an obligation undecided)"})
+                    results[i] = r2
     extra_results = []
     for modname, fn in extras.get(pid, []):
         try:
